@@ -101,3 +101,15 @@ package gateway
 //@   ensures keeps:  forall a int :: 0 <= a && a < len(tcpRoutesSource) ==> tcpRoutesSource[a] != nil
 //@ end
 
+
+// ---------------------------------------------------------------------------
+// C16 — every backend collected from a backendRef carries the weight of that
+// ref (1 when the ref declares none), never a value left over from another ref
+//@ func (*converter).createBackend
+//@   props C16
+//@   assume-pre RebalanceWeight
+//@   loop 1 step grows:      len(backends) == $head(len(backends)) || len(backends) == $head(len(backends)) + 1
+//@   loop 1 step own-name:   len(backends) == $head(len(backends)) + 1 ==> backends[len(backends)-1].service == back.Name
+//@   loop 1 step own-weight: len(backends) == $head(len(backends)) + 1 ==> backends[len(backends)-1].cl.Weight == (back.Weight != nil ? *back.Weight : 1)
+//@   loop 1 step own-len:    len(backends) == $head(len(backends)) + 1 ==> backends[len(backends)-1].cl.Length == len(backends[len(backends)-1].epready)
+//@ end
